@@ -21,6 +21,7 @@ import (
 	"strings"
 	"sync"
 	"testing"
+	"time"
 
 	"golang.org/x/crypto/ssh"
 )
@@ -93,6 +94,18 @@ func (s *goServer) stop() {
 	s.mu.Unlock()
 	if c != nil {
 		c.Close()
+	}
+}
+
+// waitDone waits (bounded) for the serving goroutine to end.
+func (s *goServer) waitDone(d time.Duration) bool {
+	t := time.NewTimer(d)
+	defer t.Stop()
+	select {
+	case <-s.done:
+		return true
+	case <-t.C:
+		return false
 	}
 }
 
